@@ -272,17 +272,59 @@ pub fn opt_sets(thorough: bool) -> Vec<Opts> {
 
 /// Streams of the C12 grammar, thinned to the ones relevant for reports.
 pub fn cases(thorough: bool) -> Vec<Case> {
-    h_sum::cases(thorough)
+    // the (quick) C12 grammar; the quick tier thins it, the thorough tier takes all of it
+    h_sum::cases(false)
         .into_iter()
         .filter(|c| c.transform != Transform::Cut)
         .enumerate()
-        .filter(|(i, c)| {
-            // thin the grammar: every case with a second scenario in quick is 1 of 7
-            thorough || (c.u.is_none() && i % 2 == 0) || i % 24 == 0
-        })
+        .filter(|(i, c)| thorough || (c.u.is_none() && i % 2 == 0) || i % 24 == 0)
         .map(|(_, c)| c)
         .collect()
 }
+
+/// Runs the independent parsers on one batch file and folds the result in.
+fn parse_batch(
+    jsonl: &std::path::Path,
+    result: &std::path::Path,
+    a: &ShardArgs,
+    violations: &mut Vec<serde_json::Value>,
+    per_key: &mut std::collections::BTreeMap<String, usize>,
+) -> usize {
+    let st = std::process::Command::new("python3")
+        .arg("tools/parse_reports.py")
+        .arg(jsonl)
+        .arg(result)
+        .status();
+    let mut parsed_ok = 0usize;
+    match st {
+        Ok(s) if s.success() => {
+            let j: serde_json::Value =
+                serde_json::from_str(&std::fs::read_to_string(result).expect("parsed")).expect("json");
+            parsed_ok = j["records"].as_u64().unwrap_or(0) as usize;
+            for v in j["violations"].as_array().cloned().unwrap_or_default() {
+                let k = format!("{}|{}", v["key"], v["finding"]);
+                let n = per_key.entry(k).or_default();
+                *n += 1;
+                if *n <= 3 {
+                    let mut v = v;
+                    v["engine"] = json!("hist");
+                    v["property"] = json!("C14");
+                    v["tier"] = json!(a.tier);
+                    violations.push(v);
+                }
+            }
+        }
+        other => {
+            eprintln!("parse_reports.py failed: {other:?}");
+            std::process::exit(3);
+        }
+    }
+    let _ = std::fs::remove_file(jsonl);
+    let _ = std::fs::remove_file(result);
+    parsed_ok
+}
+
+const BATCH: usize = 2000;
 
 pub fn run(a: &ShardArgs) -> serde_json::Value {
     let cs = cases(a.thorough);
@@ -292,6 +334,9 @@ pub fn run(a: &ShardArgs) -> serde_json::Value {
     let jsonl = dir.join(format!("{}.cases.jsonl", a.si));
     let result = dir.join(format!("{}.parsed.json", a.si));
     let mut file = std::io::BufWriter::new(std::fs::File::create(&jsonl).expect("jsonl"));
+    let mut in_batch = 0usize;
+    let mut parsed_ok = 0usize;
+    let mut per_key = std::collections::BTreeMap::new();
     let mut evaluations = 0usize;
     let mut nontrivial = std::collections::HashSet::new();
     let mut skipped = 0usize;
@@ -345,37 +390,19 @@ pub fn run(a: &ShardArgs) -> serde_json::Value {
                             "terminal": rec["basic"], "libtest": rec["libtest"]}));
                     }
                     writeln!(file, "{rec}").expect("write jsonl");
+                    in_batch += 1;
+                    if in_batch >= BATCH {
+                        drop(file);
+                        parsed_ok += parse_batch(&jsonl, &result, a, &mut violations, &mut per_key);
+                        file = std::io::BufWriter::new(std::fs::File::create(&jsonl).expect("jsonl"));
+                        in_batch = 0;
+                    }
                 }
             }
         }
     }
     drop(file);
-    // independent parsers
-    let st = std::process::Command::new("python3")
-        .arg("tools/parse_reports.py")
-        .arg(&jsonl)
-        .arg(&result)
-        .status();
-    let mut parsed_ok = 0usize;
-    match st {
-        Ok(s) if s.success() => {
-            let j: serde_json::Value =
-                serde_json::from_str(&std::fs::read_to_string(&result).expect("parsed")).expect("json");
-            parsed_ok = j["records"].as_u64().unwrap_or(0) as usize;
-            for v in j["violations"].as_array().cloned().unwrap_or_default() {
-                let mut v = v;
-                v["engine"] = json!("hist");
-                v["property"] = json!("C14");
-                v["tier"] = json!(a.tier);
-                violations.push(v);
-            }
-        }
-        other => {
-            eprintln!("parse_reports.py failed: {other:?}");
-            std::process::exit(3);
-        }
-    }
-    let _ = std::fs::remove_file(&jsonl);
+    parsed_ok += parse_batch(&jsonl, &result, a, &mut violations, &mut per_key);
     json!({
         "property": "C14", "tier": a.tier,
         "total_configs": cs.len() * osets.len(), "configs_done": evaluations, "configs_skipped_budget": skipped,
